@@ -622,12 +622,34 @@ impl<'c, 'k> Body for SchedBody<'c, 'k> {
     }
 }
 
+thread_local! {
+    /// stacks of finished coroutines, reused by later cases of this worker (creating a stack is an mmap)
+    static STACKS: RefCell<Vec<corosensei::stack::DefaultStack>> = const { RefCell::new(Vec::new()) };
+}
+
+const STACK_SIZE: usize = 256 * 1024;
+
+fn take_stack() -> corosensei::stack::DefaultStack {
+    STACKS
+        .with(|s| s.borrow_mut().pop())
+        .unwrap_or_else(|| corosensei::stack::DefaultStack::new(STACK_SIZE).expect("coroutine stack"))
+}
+
+fn give_stack(st: corosensei::stack::DefaultStack) {
+    STACKS.with(|s| {
+        let mut s = s.borrow_mut();
+        if s.len() < 16 {
+            s.push(st);
+        }
+    })
+}
+
 fn spawn<'a>(sp: &'a Sched, t: usize, body: Box<dyn FnOnce() + 'a>) -> Coroutine<(), (), ()> {
     // SAFETY: every coroutine is completed or dropped (force-unwound) inside `drive`, before `sp` and
     // everything the body borrows go out of scope.
     let body: Box<dyn FnOnce() + 'static> = unsafe { std::mem::transmute(body) };
     let sp: &'static Sched = unsafe { &*(sp as *const Sched) };
-    Coroutine::new(move |y: &Yielder<(), ()>, _| {
+    Coroutine::with_stack(take_stack(), move |y: &Yielder<(), ()>, _| {
         sp.yielders[t].set(y as *const _);
         body();
     })
@@ -742,7 +764,13 @@ fn drive<'a>(sp: &'a Sched, bodies: Vec<Box<dyn FnOnce() + 'a>>, chooser: &mut d
     sp.teardown.set(true);
     orx_concurrent_iter::verif_hooks::without_monitor(|| {
         hooks::set_tearing_down(true);
-        drop(cos);
+        for c in cos {
+            if c.done() {
+                give_stack(c.into_stack());
+            } else {
+                drop(c);
+            }
+        }
         hooks::set_tearing_down(false);
     });
     sp.teardown.set(false);
